@@ -795,10 +795,12 @@ func (g *gen) val(t *T, depth int) *Sx {
 			if t.E[0].K == "ptr" {
 				// reference-typed keys (seed C18-8): always a FRESH pointer, so that keys stay distinct; the pointee
 				// may be aliased with other storage of the case
+				// the pointees of the keys of one map are pairwise different ints: entries are rendered sorted by their
+				// plain rendering, which must not tie (a tie would make the canonical numbering of cells ambiguous - a
+				// false alarm of the first thorough run with pointer keys); keys are NOT offered for aliasing elsewhere
 				kid := g.id()
-				g.defs[t.E[0].String()] = append(g.defs[t.E[0].String()], def{kid, 0})
 				hist["ptr-key"]++
-				es = append(es, L(L(A("ptr"), I(kid), g.val(t.E[0].E[0], depth-1)), g.val(t.E[1], depth-1)))
+				es = append(es, L(L(A("ptr"), I(kid), I(20+3*i+r.Intn(3))), g.val(t.E[1], depth-1)))
 				continue
 			}
 			k := r.Range(0, 4)
